@@ -15,6 +15,7 @@ import Flounder.Spec.Chess
 import Flounder.Spec.Geometry
 import Flounder.Spec.Minimax
 import Flounder.Model.Engine
+import Flounder.Lemmas.C01Interfaces
 
 open Flounder Driver
 
@@ -188,6 +189,27 @@ def step (st : St) (line : String) : St × String :=
       (st, both s!"{(attackMask bishop sq 0 false).toNat} {(magicOf bishop sq).toNat} {relevantBits bishop sq}" "?")
     | _, _ => (st, modelOnly "bad-op")
   -- ---------------------------------------------------------------- C01 / C02 / C17
+  | ["c01.iface", b] =>   -- executable sanity check of the proof interfaces (Lemmas/C01Interfaces.lean) on one board
+    match parseBoard b with
+    | some b =>
+      if !(Spec.valid b) then (st, both "invalid" "?") else
+      let g := st.mg
+      let p := Spec.abs b
+      let att := (List.range 64).all fun t => (List.range 64).all fun s =>
+        hasSq (g.attacksTo b t) s ==
+          (match Spec.absBoard b s with
+           | some (c, pc) => c == b.active.other && Spec.manAttacks (Spec.liftKing (Spec.absBoard b) b.active) c pc s t
+           | none => false)
+      let cands := Spec.candidates p
+      let pl := g.pseudoLegalMoves b
+      let geo := cands.filter (Spec.pseudoGeom p)
+      let pe := sortedMoves pl == sortedMoves geo && (pl.eraseDups.length == pl.length)
+      let ks := MoveGenerator.kingSquare b
+      let fe := geo.all fun m =>
+        g.isLegal b m (g.attacksTo b ks) (g.getPinnedPieces b ks) ks == (Spec.castleSafe p m && Spec.kingSafeAfter p m)
+      let ps := cands.all fun m => Spec.pseudo p m == (Spec.pseudoGeom p m && Spec.castleSafe p m)
+      (st, both s!"att={att} pseudo={pe} filter={fe} split={ps}" "att=true pseudo=true filter=true split=true")
+    | none => (st, modelOnly "bad-op")
   | ["gen", b] =>      -- generated moves in generation ORDER (model tie only)
     match parseBoard b with
     | some b => (st, both (orderedMoves (st.mg.generateMoves b)) "?")
